@@ -3,6 +3,7 @@ import Driver.Batcher
 import Driver.Store
 import Driver.Sio
 import Driver.Queue
+import Driver.Srv
 /-
   Line-protocol driver: one request per line on stdin, one canonical answer per line on stdout.
   The same request lines are executed by the Go harness against the real implementation.
@@ -18,6 +19,7 @@ def step (line : String) : String :=
   | "hs" :: rest => hsLine rest
   | "sio" :: rest => sioLine rest
   | "q" :: rest => qLine rest
+  | "srv" :: rest => srvLine rest
   | _ => "bad-op"
 
 partial def loop (h : IO.FS.Stream) (out : IO.FS.Stream) : IO Unit := do
